@@ -137,7 +137,10 @@ let oracles () : M.oracles =
   { M.o_ulower = (fun c -> let i = int_of_z c in
                    match Hashtbl.find_opt ulower_tbl i with Some j -> z_of_int j | None -> c);
     M.o_parse_float = parse_float;
-    M.o_format_float = format_float }
+    M.o_format_float = format_float;
+    (* filled per case by the harness's table (dispatch op 0) *)
+    M.o_re_ok = (fun _ -> true);
+    M.o_load_loc = (fun _ -> None) }
 
 let () =
   let dir = if Array.length Sys.argv > 1 then Sys.argv.(1) else "." in
